@@ -239,7 +239,13 @@ pub fn tree_rand(s: &mut Sink, count: u64, seed: u64, maxkeys: usize) {
         let nops = 1 + cr.below(3 * t.nkeys as u64) as usize;
         let hp = *cr.pick(&[0u64, 10, 30]);
         let ops = rand_ops(&mut cr, t.nkeys, nops, t.w, hp);
-        let tag = if t.nkeys <= 8 { "Tb" } else { "T" };
+        let tag = if t.nkeys <= 8 {
+            "Tb"
+        } else if t.nkeys <= 40 {
+            "T"
+        } else {
+            "Tf"
+        };
         s.emit(&format!("{} {} {} {} {}", tag, t.base, t.w, t.keys, ops));
     }
 }
